@@ -44,6 +44,15 @@ class Ptr:
 NIL = Ptr(None)
 
 
+class BytePtr:
+    """read-only pointer to an element of an (immutable) byte slice value"""
+    __slots__ = ('s', 'i')
+
+    def __init__(self, s, i):
+        self.s = s
+        self.i = i
+
+
 class StructV:
     __slots__ = ('f',)
 
@@ -352,7 +361,7 @@ def same_val(a, b):
         return a.arr == b.arr and a.off == b.off and same(a.ln, b.ln) and a.cap == b.cap and same(a.isnil, b.isnil)
     if isinstance(a, FuncV) and isinstance(b, FuncV):
         return a.fn == b.fn and len(a.bind) == len(b.bind) and all(same_val(x, y) for x, y in zip(a.bind, b.bind))
-    if isinstance(a, tuple) and isinstance(b, tuple):
+    if isinstance(a, (tuple, list)) and isinstance(b, (tuple, list)):
         return len(a) == len(b) and all(same_val(x, y) for x, y in zip(a, b))
     if isinstance(a, StructV) and isinstance(b, StructV):
         return all(same_val(x, y) for x, y in zip(a.f, b.f))
@@ -394,8 +403,18 @@ def merge2(ctx, heap, g1, a, g2, b):
         return merge_maps(ctx, heap, g1, a, b)
     if isinstance(a, IterV) and isinstance(b, IterV) and a.kind == b.kind and set(a.d) == set(b.d):
         return IterV(a.kind, **{k: merge2(ctx, heap, g1, a.d[k], g2, b.d[k]) for k in a.d})
-    if isinstance(a, list) and isinstance(b, list) and len(a) == len(b):
-        return [merge2(ctx, heap, g1, x, g2, y) for x, y in zip(a, b)]
+    if isinstance(a, list) and isinstance(b, list):
+        # ropes: share a prefix, the shorter one is padded with empty pieces
+        n = max(len(a), len(b))
+        k = 0
+        while k < min(len(a), len(b)) and a[k] is b[k]:
+            k += 1
+        if all(isinstance(x, Str) for x in a[k:] + b[k:]):
+            ta = a[k:] + [EMPTY] * (n - len(a))
+            tb = b[k:] + [EMPTY] * (n - len(b))
+            return a[:k] + [s_ite(g1, x, y) for x, y in zip(ta, tb)]
+        if len(a) == len(b):
+            return [merge2(ctx, heap, g1, x, g2, y) for x, y in zip(a, b)]
     return mkchoice([(g1, a), (b_not(g1), b)])
 
 
@@ -651,6 +670,9 @@ class Exec:
     def load(self, st, g, p, pos=None):
         res = []
         for ga, pa in alts_of(p):
+            if isinstance(pa, BytePtr):
+                res.append((ga, s_byte(pa.s, pa.i)))
+                continue
             if not isinstance(pa, Ptr):
                 raise Unsupported('load through %r' % (pa,))
             if pa.obj is None:
@@ -667,6 +689,8 @@ class Exec:
 
     def store(self, st, g, p, x, pos=None):
         for ga, pa in alts_of(p):
+            if isinstance(pa, BytePtr):
+                raise Unsupported('in-place store into a byte slice')
             if not isinstance(pa, Ptr):
                 raise Unsupported('store through %r' % (pa,))
             if pa.obj is None:
@@ -701,15 +725,83 @@ class Exec:
             raise Unsupported('call to unmodelled function %s' % fname)
         ctx.funcs_encoded.add(fname)
         ctx.stats['calls'] += 1
+        # case-split selected integer arguments over their (small) value sets; memoise pure functions
+        sp = ctx.hooks.get('split')
+        if sp and fn['short'] in sp and not ctx.hooks.get('_in_split'):
+            r = self.call_split(fname, fn, args, heap, guard, pos, sp[fn['short']])
+            if r is not None:
+                return r
+        memo = ctx.hooks.get('pure')
+        if memo and fn['short'] in memo:
+            key = (fname,) + tuple((a.get_id() if isinstance(a, z3.ExprRef) else ('c', a)) if not isinstance(a, Str) else id(a) for a in args)
+            mt = ctx.hooks.setdefault('_memo', {})
+            if key in mt:
+                ctx.stats['memo_hits'] = ctx.stats.get('memo_hits', 0) + 1
+                return mt[key][0], heap, guard
+            ctx.depth += 1
+            try:
+                nob = len(ctx.obligations)
+                r = self.run(fname, fn, args, heap, True)
+            finally:
+                ctx.depth -= 1
+            if len(ctx.obligations) == nob and r[2] is True:
+                mt[key] = (r[0], args)   # keep args alive so ids stay unique
+                return r[0], heap, guard
+            # has obligations or may not return: fall through to a normal (guarded) run
+            del ctx.obligations[nob:]
         if TRACE:
             print('  ' * ctx.depth + 'call ' + fname.rsplit('/', 1)[-1], file=sys.stderr, flush=True)
         ctx.depth += 1
         if ctx.depth > ctx.max_depth:
             raise Unsupported('call depth exceeded at %s' % fname)
         try:
-            return self.run(fname, fn, args, heap, guard)
+            r = self.run(fname, fn, args, heap, guard)
         finally:
             ctx.depth -= 1
+        if TRACE and isinstance(r[0], Str):
+            print('  ' * ctx.depth + 'ret %s cap=%d ub=%s' % (fn['short'], r[0].cap, get_ub(r[0].ln)), file=sys.stderr, flush=True)
+        lb = ctx.hooks.get('len_bounds')
+        if lb and fn['short'] in lb and isinstance(r[0], Str) and r[2] is not False:
+            res = r[0]
+            ubs = []
+            for a in args:
+                if isinstance(a, Str):
+                    u = get_ub(a.ln) if not is_c(a.ln) else a.ln
+                    ubs.append(min(u if u is not None else a.cap, a.cap))
+            B = lb[fn['short']](ubs)
+            if res.cap > B:
+                ctx.oblige('unwind', 'stated length bound %d for the result of %s exceeded' % (B, fn['short']), b_and(r[2], i_cmp('>', res.ln, B, W, True)), pos)
+                r = (s_narrow(res, B), r[1], r[2])
+        return r
+
+    def call_split(self, fname, fn, args, heap, guard, pos, idxs):
+        """execute fn once per feasible value of the integer arguments idxs (value sets from constant trees)"""
+        ctx = self.ctx
+        i = None
+        for k in idxs:
+            if k < len(args) and not is_c(args[k]) and isinstance(args[k], z3.ExprRef):
+                vs = vals_of(args[k], 64)
+                if vs is not None and len(vs) > 1:
+                    i = k
+                    break
+        if i is None:
+            return None
+        ctx.stats['splits'] = ctx.stats.get('splits', 0) + 1
+        outs = []
+        for v in vs:
+            gv = b_and(guard, args[i] == v)
+            if gv is False:
+                continue
+            a2 = list(args)
+            a2[i] = v
+            r, h2, g2 = self.call_function(fname, a2, dict(heap), gv, pos)
+            if g2 is False:
+                continue
+            outs.append((g2, State({'$r': r}, h2)))
+        if not outs:
+            return None, heap, False
+        gm, sm = merge_states(ctx, outs)
+        return sm.regs.get('$r'), sm.heap, gm
 
     def run(self, fname, fn, args, heap, guard):
         ctx = self.ctx
@@ -1106,7 +1198,8 @@ class Exec:
                     for k in range(len(arr.e)):
                         alts.append((b_and(ga, i == k), Ptr(xa.obj, xa.path + (k,))))
             elif isinstance(xa, Str):
-                raise Unsupported('address of byte-slice element (in-place byte store)')
+                g = self.bounds(g, i, xa.ln, pos)
+                alts.append((ga, BytePtr(xa, i)))
             else:
                 raise Unsupported('IndexAddr on %r' % (xa,))
         if not alts:
@@ -1457,6 +1550,10 @@ def rune_to_str(ex, x, info, g, pos):
         except (ValueError, OverflowError):
             return s_const('�')
     x32 = i_conv(x, bits, signed, 32, True)
+    if i_cmp('<', x32, 0x80, 32, True) is True and i_cmp('>=', x32, 0, 32, True) is True:
+        b = z3.Extract(7, 0, x32)
+        set_ub(b, get_ub(x32), get_lb(x32) or 0)
+        return Str([b], 1)
     one = Str([z3.Extract(7, 0, x32)], 1)
     two = Str([z3.Extract(7, 0, 0xC0 | z3.LShR(x32, 6)), z3.Extract(7, 0, 0x80 | (x32 & 0x3F))], 2)
     is1 = z3.And(x32 >= 0, x32 < 0x80)
@@ -1500,8 +1597,13 @@ def str_next(ex, st, g, it, pos):
             r, w = 0xFFFD, 1
         return (True, p, r), IterV('str', s=s, pos=p + w)
     b0_32 = i_conv(b0, 8, False, 32, False)
-    b1_32 = i_conv(b1, 8, False, 32, False)
     ascii_ = i_cmp('<', b0, 0x80, 8, False)
+    if ascii_ is True:
+        np = i_bin('+', p, 1, W, True)
+        if not is_c(np):
+            set_ub(np, s.cap + 1)
+        return (ok, p, b0_32), IterV('str', s=s, pos=np)
+    b1_32 = i_conv(b1, 8, False, 32, False)
     has2 = i_cmp('<', i_bin('+', p, 1, W, True), s.ln, W, True)
     two = b_and(i_cmp('>=', b0, 0xC2, 8, False), i_cmp('<', b0, 0xE0, 8, False), has2,
                 i_cmp('>=', b1, 0x80, 8, False), i_cmp('<', b1, 0xC0, 8, False))
